@@ -150,3 +150,4 @@ def check(ctx):
     check_levels(ctx)
     c01.check_level0_closure(ctx)         # level-0 inputs are closed under overlap ...
     c01.check_pick_level0_closure(ctx)    # ... for every automatically picked compaction
+    c01.check_range_fold(ctx)             # the range that selects next-level inputs covers all inputs
